@@ -13,12 +13,14 @@ Mk(fam, cont, n, never, b) ==
 Shapes == {<<"race", "arr">>, <<"race_ok", "arr">>, <<"race_ok", "vec">>, <<"race_ok", "tup">>}
 
 CfgsQuick ==
+  {[reuse |-> TRUE] @@ Mk(s[1], s[2], 2, <<>>, B(FALSE, 1, 1, 0, 1, 0, FALSE, FALSE)) : s \in Shapes} \cup
   {Mk(s[1], s[2], 2, <<>>, B(FALSE, 2, 2, 1, 1, 1, TRUE, TRUE)) : s \in Shapes}
   \cup {Mk(s[1], s[2], 3, nv, B(FALSE, 1, 2, 1, 1, 1, FALSE, FALSE)) : s \in Shapes, nv \in {<<>>, <<1>>}}
   \cup {Mk(s[1], s[2], 1, <<>>, B(FALSE, 1, 1, 0, 1, 1, TRUE, TRUE)) : s \in Shapes}
   \cup {Mk("race_ok", c, 0, <<>>, B(FALSE, 1, 1, 0, 0, 0, TRUE, FALSE)) : c \in {"arr", "vec"}}
 
 CfgsThorough ==
+  CfgsQuick \cup
   {Mk(s[1], s[2], 3, nv, B(FALSE, 2, 3, 1, 1, 2, TRUE, TRUE)) : s \in Shapes, nv \in {<<>>, <<0>>, <<1, 2>>}}
   \cup {Mk(s[1], s[2], 4, <<>>, B(FALSE, 1, 2, 1, 1, 1, FALSE, FALSE)) : s \in Shapes}
 
